@@ -177,16 +177,36 @@ Lemma inv_invokes lf r p en rf v l : inv (map (mk_invoke lf r p en rf v) l) = ma
 Proof. induction l as [|x l IH]; [reflexivity|]. cbn. f_equal. exact IH. Qed.
 
 (* what a message delivers to the callbacks of its destination feature: reference, data, is it a result *)
-Definition fires (noerr : payload -> bool) (d : dgram) : option (N * N * bool) :=
+Definition fires (noerr : payload -> bool) (asres : cls -> bool) (d : dgram) : option (N * N * bool) :=
   match d_ref d with
   | None => None
   | Some r =>
       match d_body d with
       | BResult e => Some (r, e, true)
+      | BResultWith _ => None
+      | BCmd c (PResult e) => if asres c then Some (r, e, true) else None
       | BCmd CReply pl => if noerr pl then Some (r, pl_val pl, false) else None
       | BCmd _ _ => None
       end
   end.
+
+Lemma payload_is_result pl : {e | pl = PResult e} + {forall e, pl <> PResult e}.
+Proof. destruct pl; try (right; intros; discriminate). left. eexists. reflexivity. Qed.
+
+Lemma fires_plain noerr asres d c pl :
+  d_body d = BCmd c pl -> (forall e, pl <> PResult e) ->
+  fires noerr asres d =
+    match d_ref d with
+    | None => None
+    | Some r => match c with CReply => if noerr pl then Some (r, pl_val pl, false) else None | _ => None end
+    end.
+Proof.
+  intros Hb Hn. unfold fires. rewrite Hb. destruct (d_ref d); [|reflexivity].
+  destruct pl; try reflexivity. exfalso. exact (Hn err eq_refl).
+Qed.
+
+Lemma fn_result_unregistered t : fn_registered t FN_RESULT = false.
+Proof. reflexivity. Qed.
 
 Definition handled (s : st) (p : N) (en : rent) (rf : rfeat) (lf : lfeat) (fr : option (N * N * bool)) (h : hres) : Prop :=
   match fr with
@@ -198,10 +218,10 @@ Definition handled (s : st) (p : N) (en : rent) (rf : rfeat) (lf : lfeat) (fr : 
   end.
 
 Lemma process_result_handled s p en rf lf d e :
-  found s lf -> d_body d = BResult e ->
-  handled s p en rf lf (fires (fun _ => true) d) (process_result s p en rf lf d e).
+  found s lf ->
+  handled s p en rf lf (match d_ref d with Some r => Some (r, e, true) | None => None end) (process_result s p en rf lf d e).
 Proof.
-  intros Hf Hb. unfold fires, process_result. rewrite Hb.
+  intros Hf. unfold process_result.
   destruct (d_ref d) as [r|]; [|split; [apply vsame_refl | reflexivity]].
   destruct (response_cbs_views s lf r (mk_invoke lf r p en rf e) Hf) as [Hv Ho].
   destruct (process_response_cbs s lf r _) as [s1 o1]. cbn [fst snd] in *. subst o1.
@@ -211,13 +231,21 @@ Qed.
 
 Lemma fl_handle_handled s p en rf lf d :
   found s lf ->
-  handled s p en rf lf (fires (fun pl => fn_registered (rf_type rf) (pl_fn pl)) d) (fl_handle s p en rf lf d).
+  handled s p en rf lf (fires (fun pl => fn_registered (rf_type rf) (pl_fn pl)) (fun _ => false) d) (fl_handle s p en rf lf d).
 Proof.
-  intros Hf. unfold fl_handle. destruct (d_body d) as [e|c pl] eqn:Hb.
-  - pose proof (process_result_handled s p en rf lf d e Hf Hb) as H. unfold fires in *. rewrite Hb in *. exact H.
-  - unfold fires. rewrite Hb.
-    assert (Hnone : forall (h : hres), vsame s (fst (fst h)) -> inv (snd (fst h)) = [] -> handled s p en rf lf None h).
+  intros Hf. unfold fl_handle. destruct (d_body d) as [e|pl0|c pl] eqn:Hb.
+  - pose proof (process_result_handled s p en rf lf d e Hf) as H. unfold fires. rewrite Hb. exact H.
+  - unfold fires. rewrite Hb. destruct (d_ref d); (split; [apply vsame_refl | reflexivity]).
+  - assert (Hnone : forall (h : hres), vsame s (fst (fst h)) -> inv (snd (fst h)) = [] -> handled s p en rf lf None h).
     { intros h H1 H2. split; assumption. }
+    destruct (payload_is_result pl) as [[e ->]|Hn].
+    { (* a resultData element under another classifier: no feature has function data for it *)
+      assert (Hfr : fires (fun pl => fn_registered (rf_type rf) (pl_fn pl)) (fun _ => false) d = None).
+      { unfold fires. rewrite Hb. destruct (d_ref d); [destruct c|]; reflexivity. }
+      rewrite Hfr. cbn [pl_fn]. apply Hnone; destruct c; unfold process_write, write_refused; rewrite ?fn_result_unregistered;
+        cbn [negb orb fst snd]; try apply vsame_refl; try reflexivity;
+        destruct (eqb_role _ _); cbn [fst snd]; try apply vsame_refl; reflexivity. }
+    rewrite (fires_plain _ _ d c pl Hb Hn).
     destruct c.
     + destruct (d_ref d); apply Hnone;
         (destruct (eqb_role _ _); [|destruct (negb _)]); cbn [fst snd]; try apply vsame_refl; reflexivity.
@@ -229,7 +257,7 @@ Proof.
       unfold handled. cbn [fst snd].
       split; [exact Hv|]. rewrite inv_invokes, app_nil_r. reflexivity.
     + destruct (d_ref d); apply Hnone; destruct (negb _ || _); cbn [fst snd]; try apply vsame_refl; reflexivity.
-    + destruct (d_ref d); apply Hnone; unfold process_write; destruct (negb _); cbn [fst snd];
+    + destruct (d_ref d); apply Hnone; unfold process_write; destruct (write_refused _ _ _); cbn [fst snd];
         try apply vsame_refl; try reflexivity;
         try (apply views_upd_neutral; intros x; split; reflexivity);
         destruct (d_ack d); reflexivity.
@@ -256,11 +284,16 @@ Qed.
 
 Lemma nm_handle_handled s pe en rf lf d :
   found s lf -> find_peer s (p_ski pe) = Some pe ->
-  handled s (p_ski pe) en rf lf (fires (fun pl => nm_noerr s pe CReply pl) d) (nm_handle true s pe en rf lf d).
+  handled s (p_ski pe) en rf lf (fires (fun pl => nm_noerr s pe CReply pl) (fun _ => true) d) (nm_handle true s pe en rf lf d).
 Proof.
-  intros Hf Hp. unfold nm_handle. destruct (d_body d) as [e|c pl] eqn:Hb.
-  - pose proof (process_result_handled s (p_ski pe) en rf lf d e Hf Hb) as H. unfold fires in *. rewrite Hb in *. exact H.
-  - unfold fires. rewrite Hb.
+  intros Hf Hp. destruct (d_body d) as [e|pl0|c pl] eqn:Hb.
+  - unfold nm_handle. rewrite Hb.
+    pose proof (process_result_handled s (p_ski pe) en rf lf d e Hf) as H. unfold fires. rewrite Hb. exact H.
+  - unfold nm_handle, fires. rewrite Hb. destruct (d_ref d); (split; [apply vsame_refl | reflexivity]).
+  - destruct (payload_is_result pl) as [[e ->]|Hn].
+    { unfold nm_handle. rewrite Hb.
+      pose proof (process_result_handled s (p_ski pe) en rf lf d e Hf) as H. unfold fires. rewrite Hb. destruct c; exact H. }
+    rewrite (nm_handle_bcmd true s pe en rf lf d c pl Hb Hn). rewrite (fires_plain _ _ d c pl Hb Hn).
     destruct (nm_dispatch_quiet s pe lf d c pl) as [Hl Hi].
     destruct (nm_dispatch_spec s pe lf d c pl Hp) as [_ He].
     destruct (nm_dispatch s pe lf d c pl) as [[s1 out] err]. cbn [fst snd] in *.
@@ -302,16 +335,34 @@ Lemma process_cmd_handled s pe en rf lf d :
 Proof.
   intros Hp Hsrc Hl. pose proof (found_local _ _ _ Hl) as Hf.
   unfold process_cmd. rewrite Hsrc, Hl.
-  assert (Hd : delivers s pe en rf lf d =
-               fires (fun pl => if is_nm lf then nm_noerr s pe CReply pl else fn_registered (rf_type rf) (pl_fn pl)) d).
-  { unfold delivers, fires. destruct (d_ref d); [|reflexivity]. destruct (d_body d) as [e|c pl]; [reflexivity|].
-    destruct c; try reflexivity; rewrite accepted_reply; reflexivity. }
-  rewrite Hd. clear Hd.
   set (gate := match d_body d with BCmd CWrite pl => write_gate s lf (rf_addr en rf) (pl_fn pl) | _ => true end).
+  assert (Hd : delivers s pe en rf lf d =
+               fires (fun pl => if is_nm lf then nm_noerr s pe CReply pl else fn_registered (rf_type rf) (pl_fn pl))
+                     (fun c => is_nm lf && match c with CWrite => write_gate s lf (rf_addr en rf) FN_RESULT | _ => true end) d).
+  { unfold delivers, fires. destruct (d_ref d); [|reflexivity]. destruct (d_body d) as [e|pl0|c pl]; [reflexivity|reflexivity|].
+    destruct (payload_is_result pl) as [[e ->]|Hn]; [reflexivity|].
+    destruct pl; try (exfalso; exact (Hn _ eq_refl)); destruct c; try reflexivity; rewrite accepted_reply; reflexivity. }
+  rewrite Hd. clear Hd.
   destruct gate eqn:Hg; cbn [negb].
   2:{ assert (Hw : exists pl, d_body d = BCmd CWrite pl).
-      { unfold gate in Hg. destruct (d_body d) as [e|c pl]; [discriminate|]. destruct c; try discriminate. exists pl. reflexivity. }
-      destruct Hw as [pl Hb]. unfold fires. rewrite Hb. destruct (d_ref d); (split; [apply vsame_refl | reflexivity]). }
+      { unfold gate in Hg. destruct (d_body d) as [e|pl0|c pl]; [discriminate|discriminate|]. destruct c; try discriminate. exists pl. reflexivity. }
+      destruct Hw as [pl Hb]. unfold gate in Hg. rewrite Hb in Hg.
+      assert (Hfr : fires (fun pl => if is_nm lf then nm_noerr s pe CReply pl else fn_registered (rf_type rf) (pl_fn pl))
+                     (fun c => is_nm lf && match c with CWrite => write_gate s lf (rf_addr en rf) FN_RESULT | _ => true end) d = None).
+      { unfold fires. rewrite Hb. destruct (d_ref d); [|reflexivity].
+        destruct pl; try reflexivity. cbn [pl_fn] in Hg. rewrite Hg, andb_false_r. reflexivity. }
+      rewrite Hfr. split; [apply vsame_refl | reflexivity]. }
+  assert (Hnm : is_nm lf = true ->
+            fires (fun pl => if is_nm lf then nm_noerr s pe CReply pl else fn_registered (rf_type rf) (pl_fn pl))
+                  (fun c => is_nm lf && match c with CWrite => write_gate s lf (rf_addr en rf) FN_RESULT | _ => true end) d =
+            fires (fun pl => nm_noerr s pe CReply pl) (fun _ => true) d).
+  { intros Hn. unfold fires. rewrite Hn. destruct (d_ref d); [|reflexivity]. destruct (d_body d) as [e|pl0|c pl] eqn:Hb; try reflexivity.
+    destruct pl; try reflexivity. destruct c; try reflexivity. unfold gate in Hg. cbn [pl_fn] in Hg. rewrite Hg. reflexivity. }
+  assert (Hfl : is_nm lf = false ->
+            fires (fun pl => if is_nm lf then nm_noerr s pe CReply pl else fn_registered (rf_type rf) (pl_fn pl))
+                  (fun c => is_nm lf && match c with CWrite => write_gate s lf (rf_addr en rf) FN_RESULT | _ => true end) d =
+            fires (fun pl => fn_registered (rf_type rf) (pl_fn pl)) (fun _ => false) d).
+  { intros Hn. unfold fires. rewrite Hn. reflexivity. }
   assert (Hfin : forall (fr : option (N * N * bool)) (h : hres),
             handled s (p_ski pe) en rf lf fr h ->
             handled s (p_ski pe) en rf lf fr
@@ -329,8 +380,8 @@ Proof.
         cbn [fst snd]; (split; [exact H1|]); rewrite E, H2; cbn; rewrite ?app_nil_r; reflexivity. }
   cbn [repaired v_nm_reply_cbs].
   destruct (is_nm lf) eqn:Hn; apply Hfin.
-  - apply nm_handle_handled; assumption.
-  - apply fl_handle_handled; assumption.
+  - rewrite (Hnm eq_refl). apply nm_handle_handled; assumption.
+  - rewrite (Hfl eq_refl). apply fl_handle_handled; assumption.
 Qed.
 
 (* ------------------------------------------------------------------ the invariant linking the two registries *)
@@ -591,13 +642,13 @@ Qed.
 
 Lemma rets_fl_handle s p en rf lf d : rets (snd (fst (fl_handle s p en rf lf d))) = [].
 Proof.
-  unfold fl_handle. destruct (d_body d) as [e|c pl]; [apply rets_process_result|]. destruct c.
+  unfold fl_handle. destruct (d_body d) as [e|pl0|c pl]; [apply rets_process_result|reflexivity|]. destruct c.
   - destruct (eqb_role _ _); [reflexivity|]. destruct (negb _); reflexivity.
   - destruct (negb _); [reflexivity|]. destruct (d_ref d) as [r|]; [|reflexivity].
     pose proof (rets_response_cbs s lf r p en rf (pl_val pl)) as H.
     destruct (process_response_cbs s lf r _) as [s1 o1]. exact H.
   - destruct (negb _ || _); reflexivity.
-  - unfold process_write. destruct (negb _); [reflexivity|]. destruct (d_ack d); reflexivity.
+  - unfold process_write. destruct (write_refused _ _ _); [reflexivity|]. destruct (d_ack d); reflexivity.
   - reflexivity.
 Qed.
 
@@ -610,7 +661,9 @@ Qed.
 
 Lemma rets_nm_handle s pe en rf lf d : rets (snd (fst (nm_handle true s pe en rf lf d))) = [].
 Proof.
-  unfold nm_handle. destruct (d_body d) as [e|c pl]; [apply rets_process_result|].
+  destruct (d_body d) as [e|pl0|c pl] eqn:Hb; [unfold nm_handle; rewrite Hb; apply rets_process_result | unfold nm_handle; rewrite Hb; reflexivity |].
+  destruct (payload_is_result pl) as [[e ->]|Hn]; [unfold nm_handle; rewrite Hb; apply rets_process_result|].
+  rewrite (nm_handle_bcmd true s pe en rf lf d c pl Hb Hn).
   pose proof (rets_nm_dispatch s pe lf d c pl) as H.
   destruct (nm_dispatch s pe lf d c pl) as [[s1 out] err]. cbn [fst snd] in H. unfold nm_reply_callbacks.
   destruct err; [exact H|]. destruct c; try exact H. destruct (d_ref d) as [r|]; [|exact H].
@@ -850,20 +903,20 @@ Qed.
 
 Lemma frame_fl_handle s p en rf lf d : frame (fst (fst (fl_handle s p en rf lf d))) = frame s.
 Proof.
-  unfold fl_handle. destruct (d_body d) as [e|c pl]; [apply frame_process_result|]. destruct c.
+  unfold fl_handle. destruct (d_body d) as [e|pl0|c pl]; [apply frame_process_result|reflexivity|]. destruct c.
   - destruct (eqb_role _ _); [reflexivity|]. destruct (negb _); reflexivity.
   - destruct (negb _); [reflexivity|]. destruct (d_ref d) as [r|]; [|reflexivity].
     pose proof (frame_response_cbs s lf r (mk_invoke lf r p en rf (pl_val pl))) as H.
     destruct (process_response_cbs s lf r _) as [s1 o1]. exact H.
   - destruct (negb _ || _); reflexivity.
-  - unfold process_write. destruct (negb _); reflexivity.
+  - unfold process_write. destruct (write_refused _ _ _); reflexivity.
   - reflexivity.
 Qed.
 
 Lemma frame_nm_handle_quiet s pe en rf lf d :
   quiet_body (d_body d) = true -> frame (fst (fst (nm_handle true s pe en rf lf d))) = frame s.
 Proof.
-  intros Hq. unfold nm_handle. destruct (d_body d) as [e|c pl]; [apply frame_process_result|].
+  intros Hq. unfold nm_handle. destruct (d_body d) as [e|pl0|c pl]; [apply frame_process_result|discriminate Hq|].
   destruct c; try discriminate Hq. destruct pl; try discriminate Hq; cbn [nm_dispatch nm_reply_callbacks]; try reflexivity.
   destruct (d_ref d) as [r|]; [|reflexivity].
   pose proof (frame_response_cbs s lf r (mk_invoke lf r (p_ski pe) en rf (pl_val (PUseCase v)))) as H.
@@ -908,7 +961,7 @@ Section Par.
 
   Definition e0 := lf_ent lf0.
   Definition f0 := lf_id lf0.
-  Definition data_d : N := match d_body d with BResult e => e | BCmd _ pl => pl_val pl end.
+  Definition data_d : N := match d_body d with BResult e => e | BResultWith pl | BCmd _ pl => pl_val pl end.
   Definition res_d : bool := is_result_body (d_body d).
   Definition fsrc : N := match fa_feat (d_src d) with Some x => x | None => 0%N end.
   (* an invocation as the operation reports it: the peer is blanked, everything else is fixed by d *)
@@ -945,16 +998,20 @@ Section Par.
   Lemma delivers_stable s pe en rf lf : psig lf = psig lf0 -> delivers s pe en rf lf d = delivers s0 pe en rf lf0 d.
   Proof.
     intros Hp. destruct (psig_fields lf Hp) as [E1 E2]. unfold delivers. rewrite Hr.
-    destruct (d_body d) as [e|c pl]; [reflexivity|]. destruct c; try reflexivity.
-    rewrite !accepted_reply. assert (Hn : is_nm lf = is_nm lf0) by (unfold is_nm, is_feat; rewrite E1, E2; reflexivity).
-    rewrite Hn. destruct (is_nm lf0); [|reflexivity]. destruct pl; reflexivity.
+    pose proof Hq as Hq'. destruct (d_body d) as [e|pl0|c pl]; [reflexivity|reflexivity|].
+    destruct c; try discriminate Hq'. destruct pl; try discriminate Hq'.
+    all: rewrite !accepted_reply.
+    all: assert (Hn : is_nm lf = is_nm lf0) by (unfold is_nm, is_feat; rewrite E1, E2; reflexivity).
+    all: rewrite Hn; destruct (is_nm lf0); reflexivity.
   Qed.
 
   Lemma delivers_shape s pe en rf lf x : delivers s pe en rf lf d = Some x -> x = (r, data_d, res_d).
   Proof.
-    unfold delivers, data_d, res_d. rewrite Hr. destruct (d_body d) as [e|c pl].
+    pose proof Hq as Hq'. unfold delivers, data_d, res_d. rewrite Hr. destruct (d_body d) as [e|pl0|c pl].
     - intros H. injection H as <-. reflexivity.
-    - destruct c; try discriminate. destruct (accepted _ _ _ _ _ _ _); [|discriminate]. intros H. injection H as <-. reflexivity.
+    - discriminate.
+    - destruct c; try discriminate Hq'. destruct pl; try discriminate Hq';
+        (destruct (accepted _ _ _ _ _ _ _); [|discriminate]); intros H; injection H as <-; reflexivity.
   Qed.
 
   Lemma find_peer_frame s p : R s -> find_peer s p = find_peer s0 p.
